@@ -29,15 +29,8 @@ theorem error_keeps_tree (hash : Bytes → H) (short : H → List Char) (t : HTr
     · split <;> rfl
   | put p e l hh =>
     simp only [handle] at h ⊢
-    split
-    · rfl
-    · split
-      · rfl
-      · split
-        · rfl
-        · split
-          · next hs hpf hne hc => simp [hs, hpf, hne, hc] at h
-          · next hs hpf hne hc => simp [hs, hpf, hne, hc] at h
+    repeat' split
+    all_goals first | rfl | simp_all
   | delete p e =>
     simp only [handle] at h ⊢
     split
